@@ -62,10 +62,23 @@ def main():
     if trace_on:
         sys.settrace(_global)
     results = []
+
+    def _state():
+        return (dict(np.geterr()), {k: (v if not callable(v) else None) for k, v in np.get_printoptions().items()})
+
+    state0 = _state()
     for case in cases:
         signal.alarm(int(os.environ.get("VERIF_CASE_TIMEOUT", "20")))
         try:
             res = {"ok": mod.run_impl(case)}
+            # process-wide NumPy state (floating-point error handling, print options) is the caller's: a library call that
+            # changes it and does not put it back changes what LATER calls do
+            if _state() != state0:
+                now = _state()
+                res = {"err": "Other:GlobalStateChanged", "msg": f"np.geterr()/printoptions changed by the calls of this case: "
+                       f"{ {k: v for k, v in now[0].items() if state0[0].get(k) != v} } {[k for k in now[1] if now[1][k] != state0[1].get(k)]}"}
+                np.seterr(**state0[0])
+                np.set_printoptions(**{k: v for k, v in state0[1].items() if v is not None})
         except CaseTimeout:
             res = {"err": "TimeoutError", "msg": "case exceeded time limit"}
         except Exception as ex:
